@@ -101,5 +101,26 @@ def run_for(chk, pid):
                 chk.ob(pid + ".selftest-refactoring", "refactoring %s" % name, ok, "benign/%s/patch.diff" % name, key="refactoring:" + name,
                        detail="" if ok else "alarm on a behaviour-preserving refactoring: exit %s %s" % (rc, info))
                 results.append(dict(id="refactoring:" + name, verdict="silent" if ok else "FALSE-ALARM", exit=rc))
+    # property-breaking changes written by independent sub-agents (seeded/<id>/patch.diff, confirmed by hand: still
+    # compile, pass the pinned suite, fail their demonstration): the owning check must report each of them
+    sdir = os.path.join(VERIF, "seeded")
+    if os.path.isdir(sdir):
+        import json
+        chk.rule(pid + ".selftest-seeded", "thorough tier: an independently written change that breaks this property while passing the "
+                                           "pinned test suite makes this check report a violation")
+        jobs = []
+        for n in sorted(os.listdir(sdir)):
+            mp, pp = os.path.join(sdir, n, "meta.json"), os.path.join(sdir, n, "patch.diff")
+            if os.path.exists(mp) and os.path.exists(pp) and json.load(open(mp)).get("property") == pid:
+                jobs.append((pid, n, pp, base))
+        with concurrent.futures.ThreadPoolExecutor(max_workers=8) as ex:
+            for name, rc, info in ex.map(_run_patch, jobs):
+                if rc == "skipped":
+                    results.append(dict(id="seeded:" + name, verdict="skipped", why=info))
+                    continue
+                ok = rc == 1
+                chk.ob(pid + ".selftest-seeded", "seeded change %s" % name, ok, "seeded/%s/patch.diff" % name, key="seeded:" + name,
+                       detail=("reported: " + info) if ok else "expected a violation, got exit %s %s" % (rc, info))
+                results.append(dict(id="seeded:" + name, verdict="caught" if ok else "MISSED", exit=rc, first_report=info))
     chk.extra["corpus"] = results
     return results
